@@ -278,7 +278,7 @@ def generate(prop, seed, tier):
     rounds = []
     # data far below / above the unfitted defaults (p0 ~ 1) make a premature or
     # stale fit land on the bounds; only for linear DAGs (exponents stay sane)
-    yscale = S.wpick([(1.0, 10), (0.1, 4), (0.03, 4), (10.0, 2), (1e3, 1), (1e5, 1), (1e-3, 1)]) if linear_run else 1.0
+    yscale = S.wpick([(1.0, 10), (0.1, 4), (0.03, 4), (10.0, 2), (1e3, 1), (1e5, 1), (1e-3, 1), (1e-6, 0.7), (1e-9, 0.7)]) if linear_run else 1.0
     for r in range(n_rounds):
         truth = []
         for f in funcs:
@@ -353,6 +353,16 @@ def generate(prop, seed, tier):
             if f["bounds"] is None and S.chance(0.5):
                 continue
             rounds[r]["set_bounds"] = {"func": j, "bounds": nb, "kinds": kinds, "how": S.pick(["assign", "items"]) if f["bounds"] is not None else "assign"}
+    # Data ten and more orders of magnitude below the start parameters are kept for single functions
+    # without constraints: all their parameters then have the magnitude of the data.  With a
+    # conditioner of order one next to an offset of order 1e-9, scipy's relative step criterion
+    # (xtol, x_scale = 1) is decided by the large parameter alone, and SLSQP's finite-difference step
+    # of 1.5e-8 cannot resolve such parameters at all (see DESIGN.md section 0a, small end of the
+    # known finding) - workloads that decide nothing about virocon.
+    if nf > 1 or any(f["constraints"] is not None for f in funcs):
+        for rnd in rounds:
+            if rnd["yscale"] < 1e-4:
+                rnd["yscale"] = core.r6(rnd["yscale"] * 1e6)
     # faults: F1 in at most one non-final round, always followed by a clean round
     if n_rounds >= 2 and S.chance(0.45):
         r = S.int(0, n_rounds - 2)
@@ -678,13 +688,15 @@ def check_function(run, spec, j, x, y, params, tag, yscale=1.0):
             tol_rel, tol_abs = (rel, absl) if (constrained or bounded) else (TOL_O4_LM[0], TOL_O4_LM[1] * ynorm2)
             run.count("o4_comparisons")
             excess = (S_fin - S_ref) / (tol_rel * S_ref + tol_abs * wn)
-            cand = {"excess": excess, "params": p, "lsq_solution": [float(v) for v in ref], "S": S_fin, "S_lsq": S_ref, "rel": (S_fin - S_ref) / (S_ref + 1e-300), "rel_y": (S_fin - S_ref) / (ynorm2 * wn)}
+            cand = {"excess": excess, "params": p, "lsq_solution": [float(v) for v in ref], "S": S_fin, "S_lsq": S_ref, "rel": (S_fin - S_ref) / (S_ref + 1e-300), "rel_y": (S_fin - S_ref) / (ynorm2 * wn), "cond": float(cond), "pdev": float(np.max(np.abs(np.array(p) - ref)) / max(float(np.max(np.abs(ref))), 1e-300))}
             if best is None or excess < best["excess"]:
                 best = cand
             if excess <= 1.0:
                 break
         if best is not None and best["excess"] > 0:
             _calib("o4", site, best["rel"], best["rel_y"], best["S"] - best["S_lsq"])
+        if best is not None:
+            _calib("o4p", site + ("/w" if len(Ws) > 1 else ""), best["pdev"], best["cond"], best["excess"])
         if best is not None and best["excess"] > 1.0:
             run.violate("O4-linear-lsq", site, {"func": j, **best})
 
